@@ -330,12 +330,6 @@ func installStd(m *Machine) {
 	}
 	I["github.com/klauspost/compress/zstd.NewWriter"] = func(r *Run, fr *Frame, a []Value) Value { return Tuple{Ptr(nil), nilErr()} }
 	I["github.com/klauspost/compress/zstd.NewReader"] = func(r *Run, fr *Frame, a []Value) Value { return Tuple{Ptr(nil), nilErr()} }
-	I["github.com/KevoDB/kevo/pkg/config.LoadConfigFromManifest"] = func(r *Run, fr *Frame, a []Value) Value {
-		// manifest persistence is reflection-driven JSON: modelled as "no manifest yet" (C20 treats it separately)
-		g := r.M.Prog.ImportedPackage("github.com/KevoDB/kevo/pkg/config").Var("ErrManifestNotFound")
-		return Tuple{Ptr(nil), *(r.global(g).(Ptr))}
-	}
-	I["(*github.com/KevoDB/kevo/pkg/config.Config).SaveManifest"] = func(r *Run, fr *Frame, a []Value) Value { return nilErr() }
 	I["time.Now"] = func(r *Run, fr *Frame, a []Value) Value {
 		r.Clock += 1000
 		return Struct{Num{W: 64}, Num{W: 64, Signed: true, C: uint64(r.Clock)}, Ptr(nil)}
